@@ -67,12 +67,19 @@ func workers(run *vf.Run) int {
 }
 
 func cases(run *vf.Run) ([]json.RawMessage, error) {
-	n, dur := 6, 12000
+	// A run is sized by completed calls, not by seconds: the operation
+	// goroutines run for at least dur ms and until ops calls have completed,
+	// under a generous wall-clock cap (the race build on a loaded machine
+	// completes far fewer calls per second than on an idle one).
+	n, dur, ops, capMs := 6, 10000, 1200, 75000
 	if run.Tier == "thorough" {
-		n, dur = 40, 30000
+		n, dur, ops, capMs = 40, 30000, 5000, 180000
 	}
 	if v := os.Getenv("VERIF_C12_DUR_MS"); v != "" {
 		fmt.Sscan(v, &dur)
+	}
+	if v := os.Getenv("VERIF_C12_OPS"); v != "" {
+		fmt.Sscan(v, &ops)
 	}
 	var out []json.RawMessage
 	for i := 0; i < n; i++ {
@@ -81,6 +88,8 @@ func cases(run *vf.Run) ([]json.RawMessage, error) {
 			Idx:        i,
 			Seed:       vf.SubSeed(run.Seed, "C12-case", i),
 			DurMs:      dur,
+			Ops:        ops,
+			CapMs:      capMs,
 			NDB:        1 + (i+int(run.Seed))%3,
 			Writers:    1 + rng.Intn(2),
 			G:          []int{8, 12, 16, 24, 32}[rng.Intn(5)],
@@ -266,7 +275,7 @@ func runCase(run *vf.Run, raw json.RawMessage, dir string) *vf.Result {
 	}
 	done := make(chan error, 1)
 	go func() { done <- cmd.Wait() }()
-	budget := time.Duration(s.DurMs)*time.Millisecond + 240*time.Second
+	budget := time.Duration(s.CapMs)*time.Millisecond + 300*time.Second
 	timedOut := false
 	var werr error
 	select {
@@ -374,6 +383,7 @@ func runCase(run *vf.Run, raw json.RawMessage, dir string) *vf.Result {
 		}
 	}
 	res.Count("calls_completed", len(evs))
+	res.Count("calls_target_per_run", s.Ops)
 	nerr := 0
 	for _, n := range ev.OpsErr {
 		nerr += n
@@ -399,6 +409,14 @@ func runCase(run *vf.Run, raw json.RawMessage, dir string) *vf.Result {
 	}
 	res.Count("listings_checked", lists)
 
+	// databases for which a closed DB object was found open / initialised again
+	rootCause := map[string]string{}
+	rc := func(db string) string {
+		if rootCause[db] != "" {
+			return " (root cause: " + rootCause[db] + ")"
+		}
+		return ""
+	}
 	// mid-run probes
 	probeEval := func(p ProbeResult) {
 		res.Evals += 2
@@ -409,10 +427,10 @@ func runCase(run *vf.Run, raw json.RawMessage, dir string) *vf.Result {
 			return
 		}
 		if p.Lock != "" {
-			res.Violate("read-lock-leaked", "%s %s (t=%.1fs): an external connection cannot complete PRAGMA wal_checkpoint(TRUNCATE): %s", p.DB, p.When, float64(p.AtMs)/1e3, p.Lock)
+			res.Violate("read-lock-leaked", "%s %s (t=%.1fs): an external connection cannot complete PRAGMA wal_checkpoint(TRUNCATE): %s%s", p.DB, p.When, float64(p.AtMs)/1e3, p.Lock, rc(p.DB))
 		}
 		if len(p.FDs) > 0 {
-			res.Violate("fd-leaked", "%s %s (t=%.1fs): descriptors still open on the database files with no application connection: %v", p.DB, p.When, float64(p.AtMs)/1e3, p.FDs)
+			res.Violate("fd-leaked", "%s %s (t=%.1fs): descriptors still open on the database files with no application connection: %v%s", p.DB, p.When, float64(p.AtMs)/1e3, p.FDs, rc(p.DB))
 		}
 	}
 
@@ -421,6 +439,25 @@ func runCase(run *vf.Run, raw json.RawMessage, dir string) *vf.Result {
 	fb, ferr := os.ReadFile(filepath.Join(cdir, "final.json"))
 	if ferr == nil {
 		ferr = json.Unmarshal(fb, &fin)
+	}
+	if ferr == nil {
+		seen := map[string]bool{}
+		for _, o := range fin.Reopened {
+			what := "holds a SQLite handle again (re-initialised by a sync path queued behind Close)"
+			if o.Open {
+				what = "is open again with its monitors running (Open ran after the Close)"
+			}
+			rootCause[o.DB] = "closed-instance-reopened reported for this database"
+			if seen[o.DB+what] {
+				continue
+			}
+			seen[o.DB+what] = true
+			res.Evals++
+			res.Violate("closed-instance-reopened", "%s: DB object #%d, closed by UnregisterDB/DisableDB/Store.Close, %s; nothing manages it any more. Calls overlapping a close of this database: %s", o.DB, o.N, what, overlappingClose(evs, o.DB))
+		}
+		res.Count("db_objects_created", fin.Objects)
+		res.Count("db_objects_checked_closed", fin.Objects)
+		res.Evals += fin.Objects
 	}
 	switch {
 	case timedOut:
@@ -484,10 +521,6 @@ func runCase(run *vf.Run, raw json.RawMessage, dir string) *vf.Result {
 		probeEval(p)
 	}
 	for _, mf := range fin.Mains {
-		if mf.Zombies > 0 {
-			res.Count("db_objects_holding_sqlite_handle_after_close", mf.Zombies)
-		}
-		res.Count("db_objects_created", mf.Objects)
 		res.Count("app_commits", int(mf.Commits))
 		res.Count("app_rollbacks", int(mf.Rollbacks))
 		res.Count("archive_miss", int(mf.ArchMiss))
@@ -534,7 +567,7 @@ func runCase(run *vf.Run, raw json.RawMessage, dir string) *vf.Result {
 				resets = append(resets, float64(e.T1)/1e9)
 			}
 		}
-		postRun(res, mf, dir, cp, resets)
+		postRun(res, mf, dir, cp, resets, rc(mf.Name))
 		distinctK += res.Counters["distinct_k_"+mf.Name] - before
 		if res.HarnessErr != "" {
 			return res
@@ -550,6 +583,45 @@ func runCase(run *vf.Run, raw json.RawMessage, dir string) *vf.Result {
 		"probes": res.Counters["probes_lock"], "txids_checked": res.Counters["txids_checked"], "snapshots_checked": res.Counters["snapshots_checked"],
 	}
 	return res
+}
+
+// overlappingClose lists calls on db whose interval overlaps a closing call
+// (UnregisterDB / DisableDB / stop / unregister / Close) and that returned nil
+// at or after the moment that close was invoked: the candidates for having
+// re-opened or re-initialised the closed object.
+func overlappingClose(evs []Event, db string) string {
+	isClose := func(op string) bool {
+		return strings.HasPrefix(op, "UnregisterDB") || strings.HasPrefix(op, "DisableDB") || op == "POST /stop" || op == "POST /unregister" || strings.HasPrefix(op, "DB.Close")
+	}
+	isCand := func(op string) bool {
+		for _, p := range []string{"EnableDB", "POST /start", "DB.Sync", "SyncAndWait", "Checkpoint-", "CRC64", "Store.SyncDB", "POST /sync"} {
+			if strings.HasPrefix(op, p) {
+				return true
+			}
+		}
+		return false
+	}
+	var out []string
+	for _, c := range evs {
+		if c.DB != db || !isClose(c.Op) {
+			continue
+		}
+		for _, o := range evs {
+			if o.DB != db || !isCand(o.Op) || o.Err != "" {
+				continue
+			}
+			if o.T0 < c.T1 && o.T1 > c.T0 {
+				out = append(out, fmt.Sprintf("%s [%.3f..%.3fs] with %s [%.3f..%.3fs]", o.Op, float64(o.T0)/1e9, float64(o.T1)/1e9, c.Op, float64(c.T0)/1e9, float64(c.T1)/1e9))
+				if len(out) >= 4 {
+					return strings.Join(out, "; ")
+				}
+			}
+		}
+	}
+	if len(out) == 0 {
+		return "(none recorded)"
+	}
+	return strings.Join(out, "; ")
 }
 
 func countMissing(a, b map[string]int) int {
